@@ -212,6 +212,19 @@ pub(super) fn translate_select_items(
     mut excluded: Excluded,
     ctx: &mut Context,
 ) -> Result<Vec<SelectItem>> {
+    // verification hook: the columns this select list is built from and how deeply the
+    // SELECT is nested (1 = a top-level SELECT: the main query or a CTE)
+    #[cfg(prqlc_verif)]
+    let verif_cols: Vec<(usize, bool)> = cols
+        .iter()
+        .map(|cid| {
+            let star = matches!(
+                ctx.anchor.column_decls.get(cid),
+                Some(ColumnDecl::RelationColumn(_, _, RelationColumn::Wildcard))
+            );
+            (cid.get(), star)
+        })
+        .collect();
     let mut res: Vec<_> = cols
         .into_iter()
         .map(|cid| {
@@ -250,6 +263,12 @@ pub(super) fn translate_select_items(
             })
         })
         .try_collect()?;
+
+    #[cfg(prqlc_verif)]
+    log::debug!(
+        "verif:select_list {}",
+        serde_json::json!({"cols": verif_cols, "depth": ctx.query_stack.len(), "items": res.len()})
+    );
 
     deduplicate_select_items(&mut res);
 
